@@ -26,9 +26,9 @@ CHECK = {'level': 'exploration',
  'quick': [{'pkg': 'c10', 'run': 'TestHistory|TestTwoRoutes|TestRegress', 'checks': 2000, 'timeout': 600},
            {'pkg': 'c10', 'run': 'TestEventPattern', 'checks': 600, 'timeout': 600},
            {'pkg': 'c10', 'run': 'TestLargeMaps', 'checks': 6, 'timeout': 600},
-           {'pkg': 'c10', 'run': 'TestDense', 'checks': 4, 'timeout': 600}],
+           {'pkg': 'c10', 'run': 'TestDense', 'checks': 4, 'timeout': 600, 'shrinktime': '6s'}],
  'thorough': [{'pkg': 'c10', 'run': 'TestHistory|TestTwoRoutes|TestRegress', 'checks': 20000, 'shards': 12, 'timeout': 2400},
               {'pkg': 'c10', 'run': 'TestEventPattern', 'checks': 6000, 'shards': 2, 'timeout': 2400},
               {'pkg': 'c10', 'run': 'TestLargeMaps', 'checks': 32, 'shards': 2, 'timeout': 2400},
-              {'pkg': 'c10', 'run': 'TestDense', 'checks': 40, 'shards': 2, 'timeout': 2400}],
+              {'pkg': 'c10', 'run': 'TestDense', 'checks': 40, 'shards': 2, 'timeout': 2400, 'shrinktime': '6s'}],
  'replay': [{'pkg': 'c10', 'timeout': 600}]}
